@@ -17,12 +17,12 @@ func verifKind() int {
 	return verifChoice(verifC15Srcs)
 }
 
-type verifGeom struct {
-	r      image.Rectangle // bounds of the image given to the helper
-	parent image.Rectangle // bounds of the allocated parent (== r when not a sub-image)
+type VerifGeom struct {
+	R      image.Rectangle // bounds of the image given to the helper
+	Parent image.Rectangle // bounds of the allocated parent (== r when not a sub-image)
 }
 
-var verifGeoms = []verifGeom{
+var VerifGeoms = []VerifGeom{
 	{image.Rect(0, 0, 2, 2), image.Rect(0, 0, 2, 2)},
 	{image.Rect(-2, 3, -1, 5), image.Rect(-2, 3, -1, 5)},     // 1x2, negative origin
 	{image.Rect(1, 1, 3, 2), image.Rect(0, 0, 4, 3)},          // 2x1 sub-image, stride > width
@@ -40,39 +40,39 @@ func verifFill(pix []byte) {
 // verifSource builds an image of the chosen standard-library type with the given
 // geometry, every byte of pixel storage symbolic, and returns it together with
 // its backing storage (to check that the helper does not modify it).
-func verifSource(kind int, g verifGeom) (image.Image, [][]byte) {
+func VerifSource(kind int, g VerifGeom) (image.Image, [][]byte) {
 	sub := func(img interface {
 		SubImage(image.Rectangle) image.Image
 	}) image.Image {
-		return img.SubImage(g.r)
+		return img.SubImage(g.R)
 	}
 	switch kind {
 	case 0:
-		m := image.NewRGBA(g.parent)
+		m := image.NewRGBA(g.Parent)
 		verifFill(m.Pix)
 		return sub(m), [][]byte{m.Pix}
 	case 1:
-		m := image.NewNRGBA(g.parent)
+		m := image.NewNRGBA(g.Parent)
 		verifFill(m.Pix)
 		return sub(m), [][]byte{m.Pix}
 	case 2:
-		m := image.NewRGBA64(g.parent)
+		m := image.NewRGBA64(g.Parent)
 		verifFill(m.Pix)
 		return sub(m), [][]byte{m.Pix}
 	case 3:
-		m := image.NewNRGBA64(g.parent)
+		m := image.NewNRGBA64(g.Parent)
 		verifFill(m.Pix)
 		return sub(m), [][]byte{m.Pix}
 	case 4:
-		m := image.NewGray(g.parent)
+		m := image.NewGray(g.Parent)
 		verifFill(m.Pix)
 		return sub(m), [][]byte{m.Pix}
 	case 5:
-		m := image.NewGray16(g.parent)
+		m := image.NewGray16(g.Parent)
 		verifFill(m.Pix)
 		return sub(m), [][]byte{m.Pix}
 	case 6:
-		m := image.NewCMYK(g.parent)
+		m := image.NewCMYK(g.Parent)
 		verifFill(m.Pix)
 		return sub(m), [][]byte{m.Pix}
 	case 7:
@@ -81,14 +81,14 @@ func verifSource(kind int, g verifGeom) (image.Image, [][]byte) {
 			c := verifBytes(4)
 			pal = append(pal, color.NRGBA{c[0], c[1], c[2], c[3]})
 		}
-		m := image.NewPaletted(g.parent, pal)
+		m := image.NewPaletted(g.Parent, pal)
 		verifFill(m.Pix)
 		for i := range m.Pix {
 			verifAssume(m.Pix[i] < 2)
 		}
 		return sub(m), [][]byte{m.Pix}
 	case 8:
-		m := image.NewAlpha(g.parent)
+		m := image.NewAlpha(g.Parent)
 		verifFill(m.Pix)
 		return sub(m), [][]byte{m.Pix}
 	default:
@@ -96,11 +96,11 @@ func verifSource(kind int, g verifGeom) (image.Image, [][]byte) {
 		// image.NewYCbCr mis-sizes the chroma planes for negative coordinates with the
 		// 4:1:1 / 4:1:0 ratios (x/4 truncates toward zero) and the standard library
 		// itself then panics; that is not prism's: use the same shape at a positive origin
-		if g.parent.Min.X < 0 || g.parent.Min.Y < 0 {
-			d := image.Pt(5-g.parent.Min.X, 5-g.parent.Min.Y)
-			g = verifGeom{g.r.Add(d), g.parent.Add(d)}
+		if g.Parent.Min.X < 0 || g.Parent.Min.Y < 0 {
+			d := image.Pt(5-g.Parent.Min.X, 5-g.Parent.Min.Y)
+			g = VerifGeom{g.R.Add(d), g.Parent.Add(d)}
 		}
-		m := image.NewYCbCr(g.parent, ratios[(kind-9)%6])
+		m := image.NewYCbCr(g.Parent, ratios[(kind-9)%6])
 		verifFill(m.Y)
 		verifFill(m.Cb)
 		verifFill(m.Cr)
@@ -130,11 +130,11 @@ func verifPar(rows int) int {
 
 // VerifHarness_C15_NRGBA: ConvertImageToNRGBA(img) == draw.Draw(NewNRGBA, Src).
 func VerifHarness_C15_NRGBA() {
-	g := verifGeoms[verifChoice(verifC15Geoms)]
+	g := VerifGeoms[verifChoice(verifC15Geoms)]
 	kind := verifKind()
-	src, bufs := verifSource(kind, g)
+	src, bufs := VerifSource(kind, g)
 	before := verifSnapshot(bufs)
-	out := ConvertImageToNRGBA(src, verifPar(g.r.Dy()))
+	out := ConvertImageToNRGBA(src, verifPar(g.R.Dy()))
 	verifReach("converted")
 	verifAssert(verifUnchanged(before, bufs), "NRGBA helper modified its input")
 	if s, same := src.(*image.NRGBA); same {
@@ -150,11 +150,11 @@ func VerifHarness_C15_NRGBA() {
 
 // VerifHarness_C15_RGBA: ConvertImageToRGBA(img) == draw.Draw(NewRGBA, Src).
 func VerifHarness_C15_RGBA() {
-	g := verifGeoms[verifChoice(verifC15Geoms)]
+	g := VerifGeoms[verifChoice(verifC15Geoms)]
 	kind := verifKind()
-	src, bufs := verifSource(kind, g)
+	src, bufs := VerifSource(kind, g)
 	before := verifSnapshot(bufs)
-	out := ConvertImageToRGBA(src, verifPar(g.r.Dy()))
+	out := ConvertImageToRGBA(src, verifPar(g.R.Dy()))
 	verifReach("converted")
 	verifAssert(verifUnchanged(before, bufs), "RGBA helper modified its input")
 	if s, same := src.(*image.RGBA); same {
@@ -170,11 +170,11 @@ func VerifHarness_C15_RGBA() {
 
 // VerifHarness_C15_RGBA64: ConvertImageToRGBA64(img) == draw.Draw(NewRGBA64, Src).
 func VerifHarness_C15_RGBA64() {
-	g := verifGeoms[verifChoice(verifC15Geoms)]
+	g := VerifGeoms[verifChoice(verifC15Geoms)]
 	kind := verifKind()
-	src, bufs := verifSource(kind, g)
+	src, bufs := VerifSource(kind, g)
 	before := verifSnapshot(bufs)
-	out := ConvertImageToRGBA64(src, verifPar(g.r.Dy()))
+	out := ConvertImageToRGBA64(src, verifPar(g.R.Dy()))
 	verifReach("converted")
 	verifAssert(verifUnchanged(before, bufs), "RGBA64 helper modified its input")
 	if s, same := src.(*image.RGBA64); same {
